@@ -16,6 +16,17 @@ use proto_vulcan::relation as rel;
 use proto_vulcan::relation::diseq::DisequalityConstraint;
 use proto_vulcan::state::FiniteDomain;
 
+/// `fn spin() { proto_vulcan_closure!(spin()) }`
+pub fn spin_goal() -> Goal<DU, DE> {
+    proto_vulcan_closure!(spin_goal())
+}
+
+/// the same with the recursion under a fresh variable
+pub fn spin_fresh_goal() -> Goal<DU, DE> {
+    proto_vulcan_closure!(|x| { spin_fresh_goal() })
+}
+
+
 
 #[derive(Clone, Debug, PartialEq)]
 pub enum D {
@@ -479,6 +490,9 @@ pub fn build<K: Kind>(g: &PG, vars: &mut Vars) -> K {
                 "rember" => rel::rember::<DU, DE, K>(a[0].clone(), a[1].clone(), a[2].clone()).cast_into(),
                 "permute" => rel::permute::<DU, DE, K>(a[0].clone(), a[1].clone()).cast_into(),
                 "distinct" => rel::distinct::<DU, DE, K>(a[0].clone()).cast_into(),
+                // a USER relation: a closure whose body is nothing but the recursive call (directly, or under a fresh
+                // variable when called with one argument) — a silent diverger made of paused closures only
+                "spin" => K::from_bfs(if a.is_empty() { spin_goal() } else { spin_fresh_goal() }),
                 other => panic!("unknown relation {}", other),
             }
         }
